@@ -3,6 +3,17 @@
 // driver port and 1-16 fake compute units with finite advertised resources,
 // random latencies, out-of-order and batched completion and small port
 // buffers. Judged offline from the recorded port trace (DESIGN.md, C09).
+//
+// Second layer (real*.go): the same command processor against *real* compute
+// units - amd/emu.ComputeUnit built like the emulation GPU builder builds
+// them, and the timing cu.ComputeUnit with a fake instruction memory - behind
+// a link the harness controls (per-CU stall windows for the CU->CP direction,
+// per-message gaps, one-slot / four-slot port buffers of the real CUs), so
+// that the CUs' own completion paths (batching, retry after a failed Send)
+// are exercised under back-pressure and judged by the same trace rules.
+//
+// Development switches: C09_ONLY_FAKE, C09_ONLY_REAL, C09_ONLY_CANONICAL (real
+// canonical battery only), C09_REAL_N="<emu>,<timing>", C09_VERBOSE.
 package main
 
 import (
@@ -14,42 +25,58 @@ import (
 	"verifharness/vlib"
 )
 
-func loadReplay(path string) (scenario, error) {
+func loadReplay(path string) (scenario, *realScenario, error) {
 	var f struct {
 		Witness struct {
-			Scenario scenario `json:"scenario"`
+			Scenario scenario      `json:"scenario"`
+			Real     *realScenario `json:"real_scenario"`
 		} `json:"witness"`
 	}
 	b, err := os.ReadFile(path)
 	if err != nil {
-		return scenario{}, err
+		return scenario{}, nil, err
 	}
 	if err := json.Unmarshal(b, &f); err != nil {
-		return scenario{}, err
+		return scenario{}, nil, err
+	}
+	if f.Witness.Real != nil && f.Witness.Real.NCU > 0 {
+		return scenario{}, f.Witness.Real, nil
 	}
 	if f.Witness.Scenario.NCU == 0 {
-		return scenario{}, fmt.Errorf("no scenario in %s", path)
+		return scenario{}, nil, fmt.Errorf("no scenario in %s", path)
 	}
-	return f.Witness.Scenario, nil
+	return f.Witness.Scenario, nil, nil
 }
 
 func main() {
-	c := vlib.Start("C09")
 	var scs []scenario
+	var reals []realScenario
 	replay := ""
 	for i, a := range os.Args {
 		if a == "--replay" && i+1 < len(os.Args) {
 			replay = os.Args[i+1]
 		}
 	}
+	var rs scenario
+	var rr *realScenario
 	if replay != "" {
-		s, err := loadReplay(replay)
+		// vlib.Start removes the replay files of this (tier, seed): read first
+		var err error
+		rs, rr, err = loadReplay(replay)
 		if err != nil {
 			fmt.Printf("[C09] cannot load replay: %v\n", err)
 			os.Exit(2)
 		}
-		fmt.Printf("[C09] replaying scenario %s from %s\n", s.Name, replay)
-		scs = []scenario{s}
+	}
+	c := vlib.Start("C09")
+	if replay != "" {
+		if rr != nil {
+			fmt.Printf("[C09] replaying real-CU scenario %s from %s\n", rr.Name, replay)
+			reals = []realScenario{*rr}
+		} else {
+			fmt.Printf("[C09] replaying scenario %s from %s\n", rs.Name, replay)
+			scs = []scenario{rs}
+		}
 	} else {
 		scs = canonical()
 		n := c.N(300, 8000)
@@ -57,8 +84,36 @@ func main() {
 		for i := 0; i < n; i++ {
 			scs = append(scs, genScenario(base.ForkN("s", i), i))
 		}
+		// layer "real CU": real emulation / timing compute units behind a controlled link
+		if os.Getenv("C09_ONLY_FAKE") == "" {
+			reals = canonicalReal()
+			rb := c.Rand("real-scenarios")
+			nEmu, nTiming := c.N(50, 2000), c.N(30, 800)
+			if v := os.Getenv("C09_REAL_N"); v != "" { // development: "<emu>,<timing>"
+				fmt.Sscanf(v, "%d,%d", &nEmu, &nTiming)
+			}
+			for i, n := 0, nEmu; i < n; i++ {
+				reals = append(reals, genRealEmu(rb.ForkN("emu", i), i))
+			}
+			for i, n := 0, nTiming; i < n; i++ {
+				reals = append(reals, genRealTiming(rb.ForkN("timing", i), i))
+			}
+		}
+		if os.Getenv("C09_ONLY_REAL") != "" {
+			scs = nil
+		}
+		if os.Getenv("C09_ONLY_CANONICAL") != "" {
+			scs = nil
+			reals = canonicalReal()
+		}
 	}
-	vlib.Parallel(len(scs), 0, func(i int) { runScenario(c, scs[i]) })
+	vlib.Parallel(len(scs)+len(reals), 0, func(i int) {
+		if i < len(scs) {
+			runScenario(c, scs[i])
+		} else {
+			runReal(c, reals[i-len(scs)])
+		}
+	})
 	c.Set("peak_concurrent_residents_per_cu_max", atomic.LoadInt64(&peakResidentsMax))
 
 	opts := vlib.FinishOpts{
@@ -74,6 +129,10 @@ func main() {
 			"residency interval of a work-group on a CU = [CP pushed the MapWGReq into its port, CU pushed the WGCompletionMsg into its port] in trace order; the CP cannot know of a completion earlier than that, so reuse before it is always an error",
 			"occupied ranges are the kernel's own demand (4*WFSgprCount bytes, 4*WIVgprCount bytes per lane on the wavefront's SIMD, GroupSegmentByteSize bytes), not the allocator's rounded sizes",
 			"work-group identity = (dispatch packet pointer, IDX, IDY, IDZ); the work-group's wavefront list is taken as built by the grid builder (C08 judges that)",
+			"real-CU layer: the controlled link follows akita's connection protocol (takes a message out of the sender's port only when it can deliver it; NotifyAvailable / NotifySend wake it) and every stall ends by itself, except the upstream hold of a probe's fill phase",
+			"real-CU layer: an emulation CU retries a failed completion Send every cycle, so windows are generated such that a failing Send is retried at most a few hundred times (never two consecutive emulation steps stalled for one CU)",
+			"real-CU layer: 'wavefront ended' = the emulation CU's instruction hook reported s_endpgm for it / the timing CU's tracer saw the end of its wavefront task no later than the cycle of the completion Send",
+			"real-CU layer: adapters advertise fewer resources than the real CU has (timing CU) or finite ones (emulation CU ignores placements); DispatchingPort / ControlPort are the real CU's",
 		},
 		MinNontrivial: 40,
 		MinCounters: map[string]int64{
@@ -85,9 +144,23 @@ func main() {
 			"batched_completion_msgs":             200,
 			"probe_fills":                         200,
 			"filtered_launches":                   50,
+
+			"real_emu_scenarios":                                               40,
+			"real_emu_wgs_mapped":                                              2000,
+			"real_emu_launch_responses":                                        200,
+			"real_emu_completion_msgs_with_2_or_more_ids":                      300,
+			"real_emu_completion_batches_with_2_or_more_ids_whose_send_failed": 15,
+			"real_emu_stall_windows_that_held_a_completion":                    50,
+			"real_emu_probe_fills":                                             30,
+			"real_timing_scenarios":                                            25,
+			"real_timing_wgs_mapped":                                           2500,
+			"real_timing_completion_batches_whose_send_failed":                 150,
+			"real_timing_completion_msgs_that_waited_in_the_cu_port":           500,
+			"real_timing_stall_windows_that_held_a_completion":                 15,
+			"real_timing_probe_fills":                                          50,
 		},
 	}
-	if replay != "" {
+	if replay != "" || os.Getenv("C09_ONLY_FAKE") != "" || os.Getenv("C09_ONLY_REAL") != "" || os.Getenv("C09_ONLY_CANONICAL") != "" {
 		opts.MinNontrivial = 0
 		opts.MinCounters = nil
 	}
